@@ -27,6 +27,7 @@ type c13Case struct {
 	Seed     int64       `json:"seed,omitempty"`
 	Redirect string      `json:"redirect,omitempty"`
 	Then     string      `json:"then,omitempty"`
+	Decline  int         `json:"decline,omitempty"`
 	BodyLen  int         `json:"body_len,omitempty"`
 	Chunked  bool        `json:"chunked,omitempty"`
 	N        int         `json:"n,omitempty"`
@@ -44,6 +45,7 @@ type c13Result struct {
 	Connected  bool     `json:"connected"`
 	Redirects  int      `json:"redirects"`
 	Opens      int      `json:"opens"`
+	Shakes     int      `json:"shakes"`
 	Later      []string `json:"later"`
 	Reached    bool     `json:"reached"`
 	Violations []string `json:"violations"`
@@ -180,7 +182,7 @@ func c13NonShim(rng *rand.Rand, n int, seed int64) []c13Case {
 // C13 — the websocket shim only ever connects to the configured backend.
 func C13(r *core.Run) {
 	r.Level = "exploration"
-	r.SetRule("websockets.Proxy driven in-process (race-built worker, agent's GODEBUG defaults, real gorilla backend, one case at a time per process); observation: every (network,address) handed to websocket.DefaultDialer.NetDialContext, plus request URI and Host the backend's websocket server received. Open bodies: an enumerated corpus of URL syntax classes (absolute ws/wss/http/other, scheme-relative, path-only, opaque, empty, userinfo, IP literals, ports, percent-encoded hosts, back-slashes, odd slashes, fragments, CR/LF, very long, unicode hosts, whitespace, query tricks), seeded mutations (splice, insert special, delete, duplicate) and random byte / ASCII strings, each with rewriteWebsocketHost on and off; plus pass-through uploads of 8 MiB+1 to 20 MiB (Content-Length and chunked) compared byte for byte at the wrapped handler; plus whole-session histories (open with an absolute / scheme-relative / IP-literal / odd-port URL, the backend drops the websocket abruptly or gracefully, the client goes on with data, poll, data, close, data - the dial observer stays on for all of it); plus bursts of 16 goroutines opening concurrently on one handler, every body naming its own foreign host, port, path and query (dial addresses and per-connection request URI checked; race detector on); plus a backend that answers the handshake with a redirect: statuses {301,302,307,308} x Location {absolute foreign ws, absolute foreign http, scheme-relative foreign, path-only, absolute to the backend, request path plus a trailing slash} x 8 URL shapes incl. paths beginning with //host. Pass-through: requests for ordinary paths and near misses of the shim prefix (two shim paths), random methods/headers/bodies/scripted responses; class = URL syntax class | near-miss class")
+	r.SetRule("websockets.Proxy driven in-process (race-built worker, agent's GODEBUG defaults, real gorilla backend, one case at a time per process); observation: every (network,address) handed to websocket.DefaultDialer.NetDialContext, plus request URI and Host the backend's websocket server received. Open bodies: an enumerated corpus of URL syntax classes (absolute ws/wss/http/other, scheme-relative, path-only, opaque, empty, userinfo, IP literals, ports, percent-encoded hosts, back-slashes, odd slashes, fragments, CR/LF, very long, unicode hosts, whitespace, query tricks), seeded mutations (splice, insert special, delete, duplicate) and random byte / ASCII strings, each with rewriteWebsocketHost on and off; plus pass-through uploads of 8 MiB+1 to 20 MiB (Content-Length and chunked) compared byte for byte at the wrapped handler; plus whole-session histories (open with an absolute / scheme-relative / IP-literal / odd-port URL, the backend drops the websocket abruptly or gracefully, the client goes on with data, poll, data, close, data - the dial observer stays on for all of it); plus bursts of 16 goroutines opening concurrently on one handler, every body naming its own foreign host, port, path and query (dial addresses and per-connection request URI checked; race detector on); plus a backend that turns the first handshake of an open down (403, 404 or a 200 page) and would accept a second one, with Host and request URI of every handshake request it receives judged; plus a backend that answers the handshake with a redirect: statuses {301,302,307,308} x Location {absolute foreign ws, absolute foreign http, scheme-relative foreign, path-only, absolute to the backend, request path plus a trailing slash} x 8 URL shapes incl. paths beginning with //host. Pass-through: requests for ordinary paths and near misses of the shim prefix (two shim paths), random methods/headers/bodies/scripted responses; class = URL syntax class | near-miss class")
 	r.Assume("expected request URI = net/url's escaped path (\"/\" prefixed when missing) + \"?\" + raw query of the supplied URL; how a percent-encoded spelling of the prefix (/shim%2Fopen, /%73him/open) is routed is left to ServeMux and only recorded; paths ServeMux redirects by itself are not generated; the syscall-level (strace) sample of DESIGN.md is not run: the dial hook sees every address before the socket is created")
 	bin := r.MustBuild(r.BuildWorker())
 	godebug := "GODEBUG=" + shimGodebug(r)
@@ -244,6 +246,23 @@ func C13(r *core.Run) {
 				bodyOf[c.ID] = e.url
 				nThen++
 			}
+		}
+	}
+	// a backend that turns the first handshake of an open down (403 / 404 / a 200 page) and would accept a second:
+	// every handshake request it receives is judged (Host and request URI)
+	nDecline := 0
+	for _, e := range corpus {
+		switch e.class {
+		case "absolute-ws", "absolute-wss", "absolute-http", "scheme-relative", "ip-literal", "port", "path-only", "opaque":
+			if (e.class == "path-only" || e.class == "opaque") && nDecline%3 != 0 {
+				nDecline++
+				continue
+			}
+			c := c13Case{ID: fmt.Sprintf("d%d-%d", r.Seed, nDecline), Kind: "url", Class: "declined-first-handshake:" + e.class, B64: base64.StdEncoding.EncodeToString([]byte(e.url)),
+				Rewrite: nDecline%4 == 3, Host: "client.example", Decline: []int{403, 404, 200}[nDecline%3]}
+			cases = append(cases, c)
+			bodyOf[c.ID] = e.url
+			nDecline++
 		}
 	}
 	// concurrent opens, every body naming its own foreign host: one burst per worker process (thorough: 6)
@@ -319,7 +338,10 @@ func C13(r *core.Run) {
 			if res.ParseErr {
 				parseErr++
 			}
-			if c.Redirect != "" {
+			if c.Decline > 0 {
+				r.Case(fmt.Sprintf("url:%s|first handshake answered %d|rewrite=%v|handshakes=%d|%s", c.Class, c.Decline, c.Rewrite, res.Shakes, outcome))
+				r.Add("handshake_requests_judged_at_a_declining_backend", res.Shakes)
+			} else if c.Redirect != "" {
 				r.Case(fmt.Sprintf("url:%s|%s|%s|redirect-answers=%d|%s", c.Class, c.Redirect, core.Trunc(bodyOf[c.ID], 60), res.Redirects, outcome))
 				r.Add("handshakes_answered_with_a_redirect", res.Redirects)
 				if res.Connected {
